@@ -312,7 +312,7 @@ def evaluate(results, tag):
     for i, (case, res) in enumerate(results):
         if res['term'] is not None:
             terms.append(res['term']); idx.append(i)
-    bad, errors = common.run_shards(HEADER, terms, 'chk10t', tag, shard=min(300, max(1, len(terms) // 16 + 1)))
+    bad, errors = lb.run_shards_retry(HEADER, terms, 'chk10t', tag, min(200, max(1, len(terms) // 16 + 1)))
     return {idx[k]: c for k, c in bad.items()}, errors
 
 
